@@ -24,7 +24,9 @@ for mid, fil, old, new in items:
         subprocess.run([sys.executable, '/verif/tools/rename_locals.py', '/repo', g + '/r'] + list(new), check=True, capture_output=True, env=dict(os.environ, OPW_REPO='/repo'))
         subprocess.run('cp -r %s/r/src/. %s/src/' % (g, WT), shell=True, check=True)
         shutil.rmtree(g)
-    for efile, eold, enew, eall in ([] if fil == 'GEN' else old if fil is None else [(fil, old, new, False)]):
+    if fil == 'DIFF':
+        subprocess.run(['patch', '-p1', '-s', '-i', os.path.join('/verif/selftest/keep', old)], cwd=WT, check=True)
+    for efile, eold, enew, eall in ([] if fil in ('GEN', 'DIFF') else old if fil is None else [(fil, old, new, False)]):
         p = os.path.join(WT, efile)
         s = open(p).read()
         occ = 1
